@@ -31,8 +31,17 @@ from .threads import Scheduler
 
 def gen_job(st: Streams, rng, tier: str, seed: int, tnum: int, jnum: int) -> dict:
     r = rng.random()
-    if r < 0.3:
+    if r < 0.25:
         return {"kind": "file", "dir": "d%d" % tnum, "val": (seed % 9000 + 1000) * 100 + tnum * 10 + jnum}
+    if r < 0.6:
+        # construct zoo: one construct per document with random gap shapes (also non-RFC);
+        # a small tag range on purpose, so different documents share identical gap strings
+        from . import zoo
+
+        z = zoo.Zoo(st("zoo%d_%d" % (tnum, jnum)), (seed + tnum) % 7 + 1)
+        text, facts = z.document()
+        if not reader.Doc(text).has_error():
+            return {"kind": "text", "doc": text, "ops": [], "refs": False, "zoo": facts["construct"]}
     cfg = gen.swarm(st("swarm%d_%d" % (tnum, jnum)), tier)
     cfg["max_members"] = min(cfg["max_members"], 4)
     cfg["max_depth"] = min(cfg["max_depth"], 1)
@@ -313,16 +322,23 @@ def config_items(seed: int, n: int, tier: str) -> list[dict]:
     return [j for j in (gen_job(st, rng, tier, seed, t, 1) for t in range(n)) if j["kind"] == "text"]
 
 
-def config_child(seed: int, n: int, tier: str) -> int:
-    """Run in a fresh interpreter: print one digest per item."""
+def config_child(seed: int, n: int, tier: str, order: str = "forward") -> int:
+    """Run in a fresh interpreter: print one digest per item (items processed in the given order)."""
+    import random
+
     items = config_items(seed, n, tier)
-    out = []
-    for j in items:
+    idx = list(range(len(items)))
+    if order == "reverse":
+        idx.reverse()
+    elif order.startswith("shuffle"):
+        random.Random(int(order[7:] or 0)).shuffle(idx)
+    out: list = [None] * len(items)
+    for i in idx:
         try:
-            out.append(digest(run_job(j, "/nonexistent")))
+            out[i] = digest(run_job(items[i], "/nonexistent"))
         except Exception as e:  # noqa: BLE001
-            out.append("EXC:" + type(e).__name__)
-    print(json.dumps({"hashseed": os.environ.get("PYTHONHASHSEED"), "cwd": os.getcwd(), "digests": out}))
+            out[i] = "EXC:" + type(e).__name__
+    print(json.dumps({"hashseed": os.environ.get("PYTHONHASHSEED"), "cwd": os.getcwd(), "order": order, "digests": out}))
     return 0
 
 
@@ -330,21 +346,23 @@ def config_matrix(seed: int, tier: str):
     """-> (violations, stats).  Same items under PYTHONHASHSEED x cwd; digests must agree."""
     from . import core
 
-    n = 60 if tier == "quick" else 400
+    n = 400 if tier == "quick" else 2500
     scratch = clisim.scratch_root()
     results = []
     try:
-        for hs in ("0", "1", "4242"):
-            for cwd in ("/", scratch):
-                env = dict(os.environ)
-                env["PYTHONHASHSEED"] = hs
-                env["PYTHONPATH"] = core.VERIF_ROOT + (os.pathsep + os.environ["NIMASIM_REPO"] if os.environ.get("NIMASIM_REPO") else "")
-                proc = subprocess.run([sys.executable, "-m", "nimasim", "c15-config", "--seed", str(seed), "--n", str(n), "--tier", tier],
-                                      cwd=cwd, env=env, capture_output=True, text=True, timeout=900)
-                if proc.returncode != 0:
-                    raise HarnessError("config child failed (hashseed %s cwd %s): %s" % (hs, cwd, proc.stderr[-400:]))
-                line = proc.stdout.strip().splitlines()[-1]
-                results.append(((hs, "/" if cwd == "/" else "scratch"), json.loads(line)["digests"]))
+        configs = [(hs, cwd, "forward") for hs in ("0", "1", "4242") for cwd in ("/", scratch)]
+        # prior work in the same process: the same items in other orders, each in a fresh interpreter
+        configs += [("0", "/", "reverse"), ("0", "/", "shuffle1"), ("0", "/", "shuffle2")]
+        for hs, cwd, order in configs:
+            env = dict(os.environ)
+            env["PYTHONHASHSEED"] = hs
+            env["PYTHONPATH"] = core.VERIF_ROOT + (os.pathsep + os.environ["NIMASIM_REPO"] if os.environ.get("NIMASIM_REPO") else "")
+            proc = subprocess.run([sys.executable, "-m", "nimasim", "c15-config", "--seed", str(seed), "--n", str(n), "--tier", tier, "--order", order],
+                                  cwd=cwd, env=env, capture_output=True, text=True, timeout=1800)
+            if proc.returncode != 0:
+                raise HarnessError("config child failed (hashseed %s cwd %s order %s): %s" % (hs, cwd, order, proc.stderr[-400:]))
+            line = proc.stdout.strip().splitlines()[-1]
+            results.append(((hs, "/" if cwd == "/" else "scratch", order), json.loads(line)["digests"]))
     finally:
         shutil.rmtree(scratch, ignore_errors=True)
     viols = []
